@@ -55,9 +55,70 @@ class Curve(object):
         return self.add(P, P)
 
     def mul(self, k, P):
+        """[k]P.  Small fields: the affine definition below.  Large fields:
+        mul_fast (classic IEEE P1363 Jacobian formulas, identity = Z == 0 only),
+        which is itself monitored: one call in 32 is recomputed with the
+        affine definition and must agree (AssertionError = broken oracle)."""
+        if self.p.bit_length() <= 64:
+            return self.mul_affine(k, P)
+        R = self.mul_fast(k, P)
+        Curve._fast_calls += 1
+        if Curve._fast_calls % 32 == 1:
+            assert R == self.mul_affine(k, P), "reference fast path disagrees with affine definition"
+            Curve._fast_checked += 1
+        return R
+
+    _fast_calls = 0
+    _fast_checked = 0
+
+    def mul_fast(self, k, P):
+        if k < 0:
+            return self.mul_fast(-k, self.neg(P))
+        if P is None or k == 0:
+            return None
+        p, a = self.p, self.a
+        x2, y2 = P
+
+        def dbl(X, Y, Z):
+            if Z == 0 or Y == 0:
+                return (1, 1, 0)
+            YY = Y * Y % p
+            S = 4 * X * YY % p
+            Z2 = Z * Z % p
+            M = (3 * X * X + a * Z2 * Z2) % p
+            X3 = (M * M - 2 * S) % p
+            return (X3, (M * (S - X3) - 8 * YY * YY) % p, 2 * Y * Z % p)
+
+        def add_affine(X1, Y1, Z1):
+            # (X1, Y1, Z1) + (x2, y2, 1)
+            if Z1 == 0:
+                return (x2, y2, 1)
+            ZZ = Z1 * Z1 % p
+            U2 = x2 * ZZ % p
+            S2 = y2 * ZZ * Z1 % p
+            H = (U2 - X1) % p
+            R = (S2 - Y1) % p
+            if H == 0:
+                if R == 0:
+                    return dbl(X1, Y1, Z1)
+                return (1, 1, 0)
+            HH = H * H % p
+            HHH = HH * H % p
+            V = X1 * HH % p
+            X3 = (R * R - HHH - 2 * V) % p
+            return (X3, (R * (V - X3) - Y1 * HHH) % p, Z1 * H % p)
+
+        acc = (1, 1, 0)
+        for bit in bin(k)[2:]:
+            acc = dbl(*acc)
+            if bit == "1":
+                acc = add_affine(*acc)
+        return jac_to_affine(self, *acc)
+
+    def mul_affine(self, k, P):
         """[k]P by plain right-to-left double-and-add; negative k allowed."""
         if k < 0:
-            return self.mul(-k, self.neg(P))
+            return self.mul_affine(-k, self.neg(P))
         R = None
         A = P
         while k:
